@@ -55,7 +55,7 @@ pub fn exec(c: &[i64]) -> Vec<i64> {
             let bus = Bus::new(&iface);
             let mut net = { let _g = rt.enter(); ControlNetwork::bind(&iface, &j_name()).unwrap().with_filter(f) };
             bus.inject(&raw_frame(id | 0x8000_0000, 8, &[1, 2, 3, 4, 5, 6, 7, 8]));
-            let got = rt.block_on(async { matches!(tokio::time::timeout(std::time::Duration::from_millis(40), net.recv()).await, Ok(Ok(()))) });
+            let got = rt.block_on(async { matches!(tokio::time::timeout(std::time::Duration::from_millis(40), net.recv()).await, Ok(Ok(_))) });
             let right = got && net.frame().map(|fr| fr.id().as_raw() == id).unwrap_or(false);
             vec![if got { right as i64 } else { 0 }]
         }
@@ -75,7 +75,7 @@ pub fn exec(c: &[i64]) -> Vec<i64> {
             let Rig { rt, bus, a } = r;
             bus.inject(&raw);
             let res = rt.block_on(async {
-                match tokio::time::timeout(std::time::Duration::from_millis(500), a.recv()).await { Ok(Ok(())) => true, _ => false }
+                match tokio::time::timeout(std::time::Duration::from_millis(500), a.recv()).await { Ok(Ok(_)) => true, _ => false }
             });
             if !res { return vec![-3]; }
             let f = a.frame().unwrap();
